@@ -69,6 +69,21 @@ def run(rep, props, replay=None):
     quick = C.tier() == "quick"
     rng = np.random.default_rng([C.seed(), 3])
     full_rank_pairing(rep)
+
+    def _scores(d, meth, how):
+        f = fit(d, meth, False, 2)
+        with warnings.catch_warnings():
+            warnings.simplefilter("ignore")
+            s0 = np.asarray(f.transform(None, method=how), float)
+            s1 = np.asarray(f.transform(d, method="NumInt"), float)     # (InnPro is defined for the stored curves only)
+            rec = np.asarray(f.inverse_transform(s0).values, float)
+        return np.concatenate([np.abs(s0).ravel(), np.abs(s1).ravel(), rec.ravel(), np.asarray(f.mean.values, float).ravel()])
+    # counts / digitised curves: scores (of the stored and of the given curves), reconstruction and mean on integer-dtype
+    # arrays are those of the same numbers as floats
+    fd.dtype_monitor(rep, np.random.default_rng([C.seed(), 3, 23]), {
+        "UFPCA(covariance) |NumInt scores| (stored, given) / reconstruction / mean": lambda d: _scores(d, "covariance", "NumInt"),
+        "UFPCA(inner-product) |InnPro scores| (stored, given) / reconstruction / mean": lambda d: _scores(d, "inner-product", "InnPro"),
+    }, "UFPCA scores")
     runq = C.CoqRun("C03", IMPORTS, shard=10)
     todo = []
     kinds = ["uniform", "uniform-dyadic", "nonuniform", "doy", "shifted"]
